@@ -325,13 +325,13 @@ def step (st : St) (j : Json) : St × Json :=
   | "kv.get" => (st, Json.bool (NostrRelay.KV.getEvent st.kv (fromHex (getStr j "id"))).isSome)
   | "kv.plan" =>
     let f := KVD.parseFilter (j.getObjVal? "filter" |>.toOption.getD Json.null)
-    match NostrRelay.KV.planFilter f (KVD.defaultLimit j) with
+    match NostrRelay.KV.planFilter f (KVD.defaultLimit j) (getInt j "max_limit").toNat with
     | none => (st, Json.null)
     | some p => (st, Json.mkObj [("index", Json.str (KVD.idxName p.index)), ("mats", jHexList p.mats),
         ("mats2", jHexList p.mats2), ("limit", KVD.optNat p.limit), ("raises", Json.bool p.raises)])
   | "kv.exec" =>
     let f := KVD.parseFilter (j.getObjVal? "filter" |>.toOption.getD Json.null)
-    match NostrRelay.KV.planFilter f (KVD.defaultLimit j) with
+    match NostrRelay.KV.planFilter f (KVD.defaultLimit j) (getInt j "max_limit").toNat with
     | none => (st, Json.null)
     | some p =>
       let all := NostrRelay.KV.executePlan st.kv { p with limit := none }
